@@ -114,6 +114,29 @@ def tie_family(rng):
     return w(t1), w(t2)
 
 
+def close_rows_family(rng):
+    """a group of long, nearly identical rows (three levels of lists): the new row is two elements away from an earlier old row and one element
+    away from a later one -- no tie: the closer one is its partner, with or without the caches (the nested passes that only measure a distance
+    share the pairs cache with the pass that reports)"""
+    n = rng.randint(30, 45)
+    def row(start):
+        return list(range(start, start + n))
+    base = rng.randrange(0, 50)
+    common = [row(1000 * k) for k in range(1, rng.randint(3, 4))]
+    far = row(base); i, j, k = rng.sample(range(n), 3)
+    far[i] = 9001; far[j] = 9002
+    near = row(base); near[k] = 9003
+    new = row(base)
+    olds = [far, near] if rng.random() < 0.7 else [near, far]
+    group_old = olds + [list(r) for r in common]
+    group_new = [list(common[0]), new] + [list(r) for r in common[1:]]
+    extra = [rng.randint(0, 9) for _ in range(3)]
+    t1 = [group_old, extra]; t2 = [list(extra), group_new]
+    if rng.random() < 0.3:
+        t1, t2 = {'g': t1}, {'g': t2}
+    return t1, t2
+
+
 def template_family(rng):
     """t1 refers to one sub-list object in several places (an item of the outer list that is also nested inside later items, the way
     near-duplicate records get built); t2 holds edited copies"""
@@ -253,6 +276,7 @@ def run(ctx, impl_only=False):
     pairs += [split_family(ctx.rng) for _ in range(n // 2)]
     pairs += [template_family(ctx.rng) for _ in range(max(6, n // 2))]
     pairs += [tie_family(ctx.rng) for _ in range(max(6, n // 2))]
+    pairs += [close_rows_family(ctx.rng) for _ in range(max(3, n // 6))]
     cache_keys(ctx)
     history_independence(ctx)
     lines, metas = [], []
